@@ -3,6 +3,7 @@ import json
 
 from prov.identifier import Identifier, QualifiedName, Namespace
 from prov.model import ProvException
+from prov.constants import PROV
 
 from ..world import World
 from ..gen import Gen, KINDS, ELEMENT_KINDS, FORMALS, REF_ATTRS, TIME_ATTRS
@@ -193,6 +194,32 @@ def make_case(ctx, g):
             if anon and g.chance(0.7):
                 w.add_record(c, w.rec_at(c, g.choice(anon)))
                 flags.add("duplicate-anonymous-record")
+    if g.chance(0.12):
+        # three statements under one identifier: the first is silent about an optional formal attribute, the two later ones
+        # disagree on it (or agree): every member is weighed against what the others said, not against the first only
+        import datetime as _dt
+        c = g.choice(all_containers(w, [d]))
+        EXN = Namespace("ex", "http://example.org/")
+        k_ = g.rng.randint(0, 99)
+        t1 = _dt.datetime(2021, 6, 6, 12, 30, g.rng.randint(0, 59))
+        t2 = t1 if g.chance(0.3) else t1 + _dt.timedelta(hours=g.rng.randint(1, 50))
+        which = g.choice(["generation", "activity", "usage"])
+        if which == "generation":
+            ident = QualifiedName(EXN, "g3_%d" % k_)
+            base = [(PROV["entity"], QualifiedName(EXN, "e3_%d" % k_)), (PROV["activity"], QualifiedName(EXN, "a3_%d" % k_))]
+            for extra in ([], [(PROV["time"], t1)], [(PROV["time"], t2)]):
+                w.new_record(c, "Generation", ident, base + extra)
+        elif which == "activity":
+            ident = QualifiedName(EXN, "act3_%d" % k_)
+            for extra in ([], [(PROV["startTime"], t1)], [(PROV["startTime"], t2)]):
+                w.new_record(c, "Activity", ident, extra)
+        else:
+            ident = QualifiedName(EXN, "u3_%d" % k_)
+            e1 = QualifiedName(EXN, "ue1_%d" % k_)
+            e2 = e1 if t2 == t1 else QualifiedName(EXN, "ue2_%d" % k_)
+            for extra in ([], [(PROV["entity"], e1)], [(PROV["entity"], e2)]):
+                w.new_record(c, "Usage", ident, [(PROV["activity"], QualifiedName(EXN, "ua_%d" % k_))] + extra)
+        flags.add("first-silent-later-two-%s" % ("agree" if t2 == t1 else "disagree"))
     targets = all_containers(w, [d]) if g.chance(0.5) else [d]
     if g.chance(0.4):
         # history: look-ups that find nothing (any number of them, for several unknown identifiers) come before unified()
